@@ -39,6 +39,12 @@ Definition is_closing (c : closing) (t : token) : bool :=
 Section Parser.
   Variable L : token -> Z.       (* Token::lbp *)
   Variable STOP : Z.             (* PROJECTION_STOP *)
+  (** [strict = false] is the code.  [strict = true] is the reference parser:
+      the same functions with the branches that accept non-sentences closed
+      ([&] only as a function argument, calls only on an unquoted identifier
+      token, only index/slice/wildcard brackets after a projection) and with the
+      continuation loop run after a dot-position multi-select list. *)
+  Variable strict : bool.
 
   Definition pres := res (ast * pst).
 
@@ -68,7 +74,16 @@ Section Parser.
         let '(offset, token, st1) := advance_with_pos st in
         match token with
         | TAt => Ok (AIdentity, st1)
-        | TIdentifier v => Ok (AField v, st1)
+        | TIdentifier v =>
+            if strict then
+              match peek st1 0 with
+              | TLparen =>
+                  let '(poffset, _, st2) := advance_with_pos st1 in
+                  let* (args, st3) := parse_list f CloseParen [] st2 in
+                  Ok (AFunction poffset v args, st3)
+              | _ => Ok (AField v, st1)
+              end
+            else Ok (AField v, st1)
         | TQuotedIdentifier v =>
             match peek st1 0 with
             | TLparen => perr st1 true
@@ -89,8 +104,10 @@ Section Parser.
         | TFlatten => parse_flatten f AIdentity st1
         | TLbrace => parse_kvps f [] st1
         | TAmpersand =>
-            let* (rhs, st2) := expr f (L TAmpersand) st1 in
-            Ok (AExpref rhs, st2)
+            if strict then perr st1 false
+            else
+              let* (rhs, st2) := expr f (L TAmpersand) st1 in
+              Ok (AExpref rhs, st2)
         | TNot =>
             let* (n, st2) := expr f (L TNot) st1 in
             Ok (ANot n, st2)
@@ -163,6 +180,7 @@ Section Parser.
         | TAnd => let* (rhs, st2) := expr f (L TAnd) st1 in Ok (AAnd lft rhs, st2)
         | TPipe => let* (rhs, st2) := expr f (L TPipe) st1 in Ok (ASubexpr lft rhs, st2)
         | TLparen =>
+            if strict then perr st1 true else
             match lft with
             | AField v =>
                 let* (args, st2) := parse_list f CloseParen [] st1 in
@@ -218,8 +236,12 @@ Section Parser.
         match peek st 0 with
         | TLbracket =>
             let '(_, _, st1) := advance_with_pos st in
-            parse_multi_list f st1
-        | TIdentifier _ | TQuotedIdentifier _ | TStar | TLbrace | TAmpersand => expr f bp st
+            if strict then
+              let* (lst, st2) := parse_multi_list f st1 in
+              expr_loop f bp lst st2
+            else parse_multi_list f st1
+        | TIdentifier _ | TQuotedIdentifier _ | TStar | TLbrace => expr f bp st
+        | TAmpersand => if strict then perr st true else expr f bp st
         | _ => perr st true
         end
     end
@@ -232,7 +254,15 @@ Section Parser.
         | TDot =>
             let '(_, _, st1) := advance_with_pos st in
             parse_dot f bp st1
-        | TLbracket | TFilter => expr f bp st
+        | TFilter => expr f bp st
+        | TLbracket =>
+            if strict then
+              match peek st 1 with
+              | TNumber _ | TColon => expr f bp st
+              | TStar => if tok_is_rbracket (peek st 2) then expr f bp st else perr st true
+              | _ => perr st true
+              end
+            else expr f bp st
         | t => if L t <? STOP then Ok (AIdentity, st) else perr st true
         end
     end
@@ -305,12 +335,14 @@ Section Parser.
     match fuel with
     | O => OOF
     | S f =>
-        let* (es, st1) := parse_list f CloseBracket [] st in
-        Ok (AMultiList es, st1)
+        if tok_is_rbracket (peek st 0) then perr st true      (* at least one element *)
+        else
+          let* (es, st1) := parse_list f CloseBracket [] st in
+          Ok (AMultiList es, st1)
     end
 
-  (** [parse_list(closing)]: allows an empty list and does not require commas
-      (as the code is written). *)
+  (** [parse_list(closing)]: comma separated; an empty list is possible only for
+      call arguments ([parse_multi_list] rejects it). *)
   with parse_list (fuel : nat) (c : closing) (acc : list ast) (st : pst) {struct fuel} : res (list ast * pst) :=
     match fuel with
     | O => OOF
@@ -319,12 +351,23 @@ Section Parser.
           let '(_, _, st1) := advance_with_pos st in
           Ok (rev acc, st1)
         else
-          let* (e, st1) := expr f 0 st in
+          let* (e, st1) :=
+            match c, peek st 0 with
+            | CloseParen, TAmpersand =>
+                if strict then
+                  (* an expression-reference argument *)
+                  let '(_, _, st0) := advance_with_pos st in
+                  let* (rhs, st') := expr f (L TAmpersand) st0 in
+                  Ok (AExpref rhs, st')
+                else expr f 0 st
+            | _, _ => expr f 0 st
+            end in
           if tok_is_comma (peek st1 0) then
             let '(_, _, st2) := advance_with_pos st1 in
             if is_closing c (peek st2 0) then perr st2 true
             else parse_list f c (e :: acc) st2
-          else parse_list f c (e :: acc) st1
+          else if is_closing c (peek st1 0) then parse_list f c (e :: acc) st1
+          else perr st1 true                                   (* elements are comma separated *)
     end.
 
   (** [Parser::parse] *)
@@ -343,4 +386,9 @@ Definition parse_fuel (toks : list (Z * token)) : nat := 64 + 24 * length toks.
 
 Definition parse (s : str) : res ast :=
   let* toks := tokenize s in
-  parse_tokens lbp gen_projection_stop (parse_fuel toks) toks.
+  parse_tokens lbp gen_projection_stop false (parse_fuel toks) toks.
+
+(** The reference parser (decision procedure for the grammar; see Spec/Grammar.v). *)
+Definition ref_parse (s : str) : res ast :=
+  let* toks := tokenize s in
+  parse_tokens lbp gen_projection_stop true (parse_fuel toks) toks.
